@@ -19,7 +19,7 @@ def generator_package():
 
 
 @scenario
-def sc_generator(M, key, n, exact=None):
+def sc_generator(M, key, n, exact=None, second=True):
     """GENERATORS[key](n, rng) for EVERY outcome of the random draws: raises nothing (incl. its own asserts); n players;
     2^n float64 values; v(empty) = 0; superadditive (exactly, or accepted by the library's tolerance for the families whose
     construction divides); monotone non-increasing for XOS / XS / OXS / K-budget / coverage; every draw comes from the
@@ -52,11 +52,31 @@ def sc_generator(M, key, n, exact=None):
     if key in SAM_KEYS:
         for j, c in enumerate(G.monotone_nonincreasing(n, v)):
             M.check(f"monotone[{j}]", c)
+    # every invocation returns a game of its own: a caller that modifies one result (the environment normalises
+    # copies, experiments rescale games in place) must not change what another invocation returned
+    rng2 = None
+    if not second:
+        return _frame(M, key, rng, rng2)
+    rng2 = M.generator() if M.symbolic else __import__("numpy").random.default_rng(12345)
+    game2 = gens.GENERATORS[key](n, rng2)
+    before2 = [M.val(x) for x in game2.get_values()]
+    M.check("fresh_object", game2 is not game)
+    if hasattr(game, "_graph_matrix"):
+        game._graph_matrix[0, n - 1] = game._graph_matrix[0, n - 1] + 5
+    else:
+        game.set_value(game.get_value(M.mod("coalitions").Coalition(3)) + 5, M.mod("coalitions").Coalition(3))
+    after2 = [M.val(x) for x in game2.get_values()]
+    M.check("independent_of_other_results", M.and_(*[a == b for a, b in zip(before2, after2)]))
+    _frame(M, key, rng, rng2)
+
+
+def _frame(M, key, rng, rng2):
     if M.symbolic:
+        from pyvc.core import CTX
         log = CTX.notes.get("rng_log", [])
         if not ignores_rng(key):
-            foreign = [t for t, kind in log if t != rng.tag and not t.startswith("rng")]
+            mine = {rng.tag} | ({rng2.tag} if rng2 is not None else set())
+            foreign = [t for t, kind in log if t not in mine and not t.startswith("rng")]
             M.check("draws_only_from_argument", not foreign)
-            # generators created inside the call must have a constant seed (xos_one)
         else:
             M.check("documented_exception", True)
